@@ -1,4 +1,5 @@
 import AvoVerif.Props.C13
+import AvoVerif.Props.C13Accept
 import AvoVerif.Props.C13Tables
 #print axioms Avo.Data.overlap_rejected
 #print axioms Avo.Data.data_disjoint
@@ -9,11 +10,29 @@ import AvoVerif.Props.C13Tables
 #print axioms Avo.Data.string_text_fails_at_middle_dot
 #print axioms Avo.Data.data_lines
 #print axioms Avo.Data.data_end_to_end
+#print axioms Avo.Data.data_end_to_end_real
 #print axioms Avo.Data.nonmonotone_rejected_witness
+#print axioms Avo.Data.negative_offset_witness
+#print axioms Avo.Data.dotless_float_text_is_integer
 #print axioms Avo.Data.f32_text_fails_at_F11
 #print axioms Avo.Data.f32_exact_text_ok_at_F11
+#print axioms Avo.Data.shareB_iff
+#print axioms Avo.Data.layoutB_sound
+#print axioms Avo.Data.acceptData_sound
+#print axioms Avo.Data.acceptData_image
+#print axioms Avo.Data.replay_agrees
+#print axioms Avo.Data.matchAll_perm
+#print axioms Avo.Data.acceptData_agrees_with_model
+#print axioms Avo.Data.replay_model
+#print axioms Avo.Data.acceptData_complete
+#print axioms Avo.Data.acceptData_rejects_negative
+#print axioms Avo.Data.acceptLines_sound
+#print axioms Avo.Data.acceptBytes_sound
+#print axioms Avo.Data.measured_symbol_holds_constants
 #print axioms Avo.Quote.unquote_quote
 #print axioms Avo.NumText.parseIntLit_intDecPlus
 #print axioms Avo.NumText.parseIntLit_hexPad
-#print axioms Avo.Data.const_table_agrees
-#print axioms Avo.Data.float_format_agrees
+#print axioms Avo.Data.const_types_agree
+#print axioms Avo.Data.int_vectors_agree
+#print axioms Avo.Data.str_vectors_agree
+#print axioms Avo.Data.float_vectors_agree
